@@ -86,7 +86,8 @@ func runC06(m *Sim) {
 		if len(eq) != len(peer.Model.Devices) {
 			w.Fail("C06.model", "peer-equipment-list", "the peer's equipment list has %d entries, its model %d", len(eq), len(peer.Model.Devices))
 		}
-		for id, d := range peer.Model.Devices {
+		for _, id := range mapKeysU32(peer.Model.Devices) {
+			d := peer.Model.Devices[id]
 			if got, ok := eq[id]; !ok || !AuthEqual(got, d.Auth) {
 				w.Fail("C06.model", "peer-equipment-list", "device %d is missing from the peer's equipment list or listed with another authorization", id)
 			}
@@ -215,7 +216,8 @@ func c06Check(h *Hist, site string, full bool) {
 	if len(eq) != len(n.Model.Devices) {
 		w.Fail("C06.model", "equipment-list", "equipment list has %d entries, model %d", len(eq), len(n.Model.Devices))
 	}
-	for id, d := range n.Model.Devices {
+	for _, id := range mapKeysU32(n.Model.Devices) {
+		d := n.Model.Devices[id]
 		got, ok := eq[id]
 		if !ok {
 			w.Fail("C06.model", "equipment-list", "authorized device %d missing from the equipment list", id)
@@ -234,7 +236,7 @@ func c06Check(h *Hist, site string, full bool) {
 		w.Fail("C06.model", "auth-file", "equipment-authorizations.dat has %d bytes", len(raw))
 	}
 	// Banned ids: gone everywhere, refused.
-	for id := range n.Model.Bans {
+	for _, id := range mapKeysU32(n.Model.Bans) {
 		var req [4]byte
 		binary.LittleEndian.PutUint32(req[:], id)
 		reply, pv, st := n.SyncSession(req[:])
